@@ -328,9 +328,10 @@ where
 
         let mut new_attr = vec![];
         // First we extract all namespace declarations
+        // (`xmlns:p="..."` and the unprefixed `xmlns="..."`; `p:xmlns` is an ordinary attribute)
         for attr in tag.attrs.iter_mut().filter(|attr| {
             attr.name.prefix == Some(namespace_prefix!("xmlns"))
-                || attr.name.local == local_name!("xmlns")
+                || (attr.name.prefix.is_none() && attr.name.local == local_name!("xmlns"))
         }) {
             self.declare_ns(attr);
         }
@@ -338,7 +339,7 @@ where
         // Then we bind those namespace declarations to attributes
         for attr in tag.attrs.iter_mut().filter(|attr| {
             attr.name.prefix != Some(namespace_prefix!("xmlns"))
-                && attr.name.local != local_name!("xmlns")
+                && (attr.name.prefix.is_some() || attr.name.local != local_name!("xmlns"))
         }) {
             if self.bind_attr_qname(&mut present_attrs, &mut attr.name) {
                 new_attr.push(attr.clone());
